@@ -4,7 +4,7 @@ PROP = dict(
     level="proof",
     units=[],
     # every unit below is claimed primarily by another property; C25 re-uses their discharged obligations
-    aux_units=["stackinstr", "jump", "arith", "bitwise", "meminstr"],
+    aux_units=["stackinstr", "jump", "arith", "bitwise", "meminstr", "bytecode"],  # bytecode: to_analysed pads 33 zero bytes (the padding invariant)
     technique="Verus contracts on extracted instruction functions: safety preconditions of every unsafe stack/memory/pointer call proved at each call site; gas-progress clause per instruction",
     level_text="PARTIAL (proof for the instructions under contract, nothing claimed for the rest): for 61 legacy instruction functions "
                "(arithmetic.rs 11, bitwise.rs 14, memory.rs 5 + resize_memory, control.rs jump/jumpi/jumpdest/pc, stack.rs pop/push0/push<N>/dup<N>/swap<N>) "
